@@ -28,9 +28,10 @@ var PoisonOnRelease = true
 //     arbitrary old contents, so code may not rely on what is in there).
 //
 // A buffer that is read after its release, or used without being written, shows
-// 0xDD or - once somebody else got it - that user's bytes; a buffer released
-// twice is handed to two users; and an execution never depends on what an
-// earlier one left in the pool.
+// 0xDD or - once somebody else got it - that user's bytes; releasing a buffer
+// that is still on the free list panics (the real pool would hand it to two
+// users from then on); and an execution never depends on what an earlier one
+// left in the pool.
 func PoisonPool() {
 	poisonOnce.Do(func() {
 		const bitLen = 20            // pkg/pool: bytesPool.NewPool(20)
@@ -66,6 +67,11 @@ func PoisonPool() {
 			}
 			if c != (1<<bit)-1 {
 				panic("bytesPool: invalid buf")
+			}
+			if free[bit].Contains(b) {
+				// the real pool would hand this buffer to two users from now on: whatever one of
+				// them receives or sends is overwritten by the other. Reported at the cause.
+				panic("bytesPool: buffer released twice (it is still on the free list from its first release)")
 			}
 			if PoisonOnRelease {
 				s := (*b)[:c]
